@@ -59,6 +59,7 @@ def short_callee(t):
 class Path:
     def __init__(self):
         self.guards = []
+        self.calls = []
         self.ret = None
         self.cells = {}
         self.diverged = None
@@ -239,10 +240,11 @@ class SymEx:
 
     def run(self):
         env, cells = self.init_env()
-        self._go(0, env, cells, [], set())
+        self._go(0, env, cells, [], set(), [])
         return self.paths
 
-    def _go(self, bb, env, cells, guards, visited):
+    def _go(self, bb, env, cells, guards, visited, calls=None):
+        calls = list(calls or [])
         body = self.body
         while True:
             if len(self.paths) > self.max_paths:
@@ -262,6 +264,7 @@ class SymEx:
             if k == "return":
                 p = Path()
                 p.guards = list(guards)
+                p.calls = list(calls)
                 p.ret = env.get(0, ("unit",))
                 p.cells = dict(cells)
                 self.paths.append(p)
@@ -279,6 +282,8 @@ class SymEx:
                 bb = t["t"]
                 continue
             if k == "call":
+                argvals = [self.deref_arg(env, cells, self.operand(env, cells, a)) for a in t["args"]]
+                calls.append((short_callee(t), tuple(argvals), t.get("line")))
                 res = self.call(env, cells, t)
                 if t.get("t") is None:
                     p = Path()
@@ -310,7 +315,7 @@ class SymEx:
                     seen_vals.append(val)
                     label = (False if val == 0 else True) if is_bool else (names.get(val, val))
                     gv = v[1] if v[0] == "discr" else v
-                    self._go(tgt, dict(env), dict(cells), guards + [(gv, label)], visited)
+                    self._go(tgt, dict(env), dict(cells), guards + [(gv, label)], visited, calls)
                 other = t["otherwise"]
                 if other is not None and body.blocks[other]["t"]["k"] != "unreachable":
                     if is_bool and seen_vals == [0]:
@@ -321,7 +326,7 @@ class SymEx:
                     else:
                         label = ("not", tuple(seen_vals))
                     gv = v[1] if v[0] == "discr" else v
-                    self._go(other, dict(env), dict(cells), guards + [(gv, label)], visited)
+                    self._go(other, dict(env), dict(cells), guards + [(gv, label)], visited, calls)
                 return
             raise Unsupported("terminator %s" % k)
 
